@@ -503,7 +503,7 @@ func Run(o *core.Options) int {
 	e1.Merge(r, results)
 	if o.Thorough() {
 		// free-running -race pass over the uninstrumented queues (supplementary: samples schedules)
-		out, err := exec.Command(core.Root+"/.build/bin/qrace", "4000").CombinedOutput()
+		out, err := exec.Command(core.BinDir()+"/qrace", "4000").CombinedOutput()
 		r.Set("race_pass", map[string]any{"ran": true, "ok": err == nil, "tail": lastLine(string(out))})
 		if err != nil || strings.Contains(string(out), "DATA RACE") {
 			msg := string(out)
